@@ -1,20 +1,20 @@
 package checks
 
 import (
-	"time"
-	"verifh/rig"
-	"github.com/zishang520/engine.io/v2/types"
-	"github.com/zishang520/engine.io/v2/config"
-	"github.com/zishang520/engine.io-go-parser/packet"
-	"reflect"
 	"bytes"
 	"errors"
 	"fmt"
+	"github.com/zishang520/engine.io-go-parser/packet"
+	"github.com/zishang520/engine.io/v2/config"
+	"github.com/zishang520/engine.io/v2/types"
 	"io"
 	"math/rand/v2"
+	"reflect"
 	"strings"
 	"sync"
 	"testing"
+	"time"
+	"verifh/rig"
 
 	webtrans "github.com/zishang520/engine.io/v2/webtransport"
 
